@@ -123,9 +123,11 @@ def triggers(v):
     """which of the compiler's own regexes match inside the value"""
     out = set()
     if isinstance(v, str):
-        if PYFORMAT_RX.search(v):
+        # the regexes run over the whole finished statement, so a match can also span two renderings of the value
+        # (IN lists, func arguments: ")s%(" -> "')s%(', ')s%('"): any value holding both halves is a trigger
+        if PYFORMAT_RX.search(v) or ("%(" in v and ")s" in v):
             out.add("pyformat")
-        if POSTCOMPILE_RX.search(v):
+        if POSTCOMPILE_RX.search(v) or ("__[POSTCOMPILE_" in v and "]" in v):
             out.add("postcompile")
     return out
 
